@@ -50,6 +50,18 @@ CHECKS = {
          "explicit-state exhaustive search over issue/edit/mint/burn/transfer-owner sequences by owner and stranger on the real token keeper (13 explorations: identity collisions, cap at scales 0/1/18, 9 fee-parameter sets), exact big-integer supply/burn reference compared through every query",
          "Every sequence up to the depth bound: symbol and min unit unique forever (incl. the native token), only the current owner edits/mints/hands over, non-mintable never mints, supply <= max*10^scale after every success, an accepted edit never leaves the cap below circulation, burn tally exact, fee = fee-pool part + burned part with an empty module account for tax and mint-ratio in {0,0.4,1}.",
          "DESIGN.md §3 C09"),
+ "C07": ("model_checking",
+         "explicit-state exhaustive search over call/respond/withdraw/bind-update-disable-enable-refund/block sequences on the real service keeper with a relational balance-sheet oracle per message and per end-block and conservation invariants in every state",
+         "Every sequence up to the depth bound over 3 providers (time promotion, volume promotion, plain price), 2 owners, a rich and a poor consumer, one-shot and repeated contexts: deposit escrow = sum of recorded deposits; request escrow = active request fees + unwithdrawn earned fees (provider and owner tallies agree); per end-block the consumer is charged exactly the fees recorded on the new requests, expired requests are refunded in full and slash floor(deposit*fraction) to the fee pool; per response fee minus floor(fee*tax) is earned and the tax reaches the fee pool; withdrawals and deposit moves are exact.",
+         "DESIGN.md §3 C07"),
+ "C08": ("model_checking",
+         "explicit-state exhaustive search over call/respond (by addressed provider, other provider, stranger, duplicate)/pause/start/kill/update (by consumer and stranger)/block sequences with a request-status and batch-schedule reference model; module callbacks registered on the real keeper and counted from emitted events",
+         "Every sequence up to the depth bound: each request is answered once by its provider while active or expires at its expiration height, never both; foreign/duplicate/late answers are rejected; one-shot contexts issue one batch and are removed; an unmodified running repeated context issues batch n+1 exactly its frequency after batch n below its total and nothing while paused (also not in the block that auto-pauses it for lack of funds); only the consumer controls a context; the registered callback fires exactly once per completed batch with success iff outputs >= threshold.",
+         "DESIGN.md §3 C08"),
+ "C14": ("model_checking",
+         "explicit-state exhaustive search over issue/mint/edit/transfer/burn/transfer-class sequences by creator, owner and stranger on the real NFT keeper for all four restriction-flag combinations, reference ownership/metadata model compared through the queries after every message",
+         "Every sequence up to the depth bound (thorough tier reaches the fixpoint of the closed system): forbidden operations never succeed, one owner per token agreeing across all queries, restricted mint only by the creator, metadata of update-restricted classes never changes (also via transfer-with-changes and after a class handover), ids stable, supply = tokens = sum of balances.",
+         "DESIGN.md §3 C14"),
 }
 NOT_YET = "check not built yet in this phase of the work (see DESIGN.md §6 change log); not claimed"
 
